@@ -235,6 +235,57 @@ func corrC07(out string, seed uint64, tier string, replay string) *report {
 		}
 		rep.count("overlapping dispatch", true)
 	}
+	// ---- re-entrancy: a handler may itself register a handler or dispatch another hash (nothing in the contract forbids
+	// it); neither may block, also while another goroutine is registering an unrelated prefix ----
+	{
+		crypt.VerifResetRegistry()
+		inner := 0
+		crypt.RegisterHash("$in$", func(h, p string) error { inner++; return nil })
+		crypt.RegisterHash("$lazy$", func(h, p string) error {
+			crypt.RegisterHash("$made-by-handler$", func(h, p string) error { return nil })
+			return crypt.Check("$in$"+h, p)
+		})
+		stopReg := make(chan struct{})
+		regDone := make(chan struct{})
+		go func() {
+			defer close(regDone)
+			for k := 0; ; k++ {
+				select {
+				case <-stopReg:
+					return
+				default:
+				}
+				crypt.RegisterHash(fmt.Sprintf("$other%d$", k%7), func(h, p string) error { return nil })
+			}
+		}()
+		done := make(chan error, 1)
+		go func() {
+			var err error
+			for k := 0; k < 200 && err == nil; k++ {
+				err = crypt.Check("$lazy$x", "p")
+			}
+			if err == nil {
+				err = crypt.Check("$made-by-handler$y", "p")
+			}
+			done <- err
+		}()
+		select {
+		case err := <-done:
+			if err != nil || inner != 200 {
+				rep.fail(map[string]interface{}{"history": "handler of $lazy$ registers $made-by-handler$ and dispatches $in$...; 200 calls, then Check($made-by-handler$y)"}, "nil, inner handler reached 200 times", fmt.Sprint(err, " inner=", inner),
+					"dispatch from inside a handler is not routed like any other dispatch")
+			}
+		case <-time.After(20 * time.Second):
+			rep.fail(map[string]interface{}{"history": "a handler that calls RegisterHash and crypt.Check, while another goroutine registers unrelated prefixes"}, "the calls return", "no return within 20 s",
+				"crypt.Check does not return when its handler registers or dispatches (re-entrant use deadlocks)")
+		}
+		close(stopReg)
+		select {
+		case <-regDone:
+		case <-time.After(5 * time.Second):
+		}
+		rep.count("re-entrant dispatch", true)
+	}
 	// ---- part 1: the computed prefix of every string (all candidate prefixes registered) ----
 	cs1 := newCaseSet(out, "C07_prefix", []string{"GC.Dispatch.Dispatch", "GC.Dispatch.DispatchCases"},
 		"bytes * option bytes", "ok_prefix", 4000)
